@@ -22,7 +22,8 @@ RULE = ("the 10 tests that document missing-data handling. Exhaustive: for n=0..
         "both coordinates) is MISSING, or UNKNOWN only where the test is undefined anyway (spike end points, speed index 0, "
         "single-point density, climatology point no member applies to, attenuated window with too few values); converse - "
         "MISSING only if the value, the neighbour it is differenced against, its depth or a coordinate is missing. "
-        "non-trivial: >=1 missing and >=1 present element, or missing at index 0 / n-1, or n<3")
+        "Also rate_of_change / speed / climatology on a permuted (out of order) time axis, judged on the missing-data "
+        "predicate only. non-trivial: >=1 missing and >=1 present element, or missing at index 0 / n-1, or n<3")
 ASSUMPTIONS = [
     "location_test / speed_test with exactly one coordinate missing are not 'missing observations' (C14 makes that FAIL)",
     "masked arrays carrying finite data under the mask are a separate sub-check (known finding K-5 when open)",
@@ -118,6 +119,13 @@ def labels_of(tc):
 
 def check_missing(tc, rec):
     nt, labs = labels_of(tc)
+    if tc.get("unordered"):
+        t_ = tc["case"]["t"]
+        order = sorted(range(len(t_)), key=lambda i: t_[i])
+        if order != list(range(len(t_))):
+            labs.append("time_not_increasing")
+            if [order[j] for j in order] != list(range(len(t_))):
+                labs.append("permutation_not_involution")
     rec.note(nt, labs + [f"carrier={tc.get('carrier', 'f64')}"])
     t = REG()[tc["test"]]
     C = carriers.Carrier(data=tc.get("carrier", "f64"), junk=tc.get("junk", 0.0))
@@ -142,6 +150,18 @@ def junk_case(draw, tier="quick"):
     tc = draw(any_case(tier, [t for t in TESTS if t != "valid_range"]))
     tc["carrier"] = draw(st.sampled_from(["masked_junk", "masked_junk", "masked_mixed", "masked_int"]))
     tc["junk"] = draw(st.sampled_from([0.0, 1.0, -3.5, 1000.0, 12.125, -9999.0, 1e20]))
+    return tc
+
+
+@st.composite
+def unordered_case(draw, tier="quick"):
+    """Records that arrive out of order: the same kind of case with its time axis permuted. Only the missing-data
+    predicate is judged (which flag a present point deserves on an unordered axis is not C02's business)."""
+    tc = draw(any_case(tier, ["roc", "speed", "climatology"]))
+    t = list(tc["case"]["t"])
+    tc["case"]["t"] = list(draw(st.permutations(t)))
+    tc["carrier"] = draw(st.sampled_from(CARRIERS))
+    tc["unordered"] = True
     return tc
 
 
@@ -277,6 +297,7 @@ def enum_cases(chunk):
 SUBS = [
     Sub("missing_random", random_case, check_missing, quick=8000, thorough=80000),
     Sub("missing_masked_junk", junk_case, check_missing, quick=1200, thorough=20000),
+    Sub("missing_unordered_time", unordered_case, check_missing, quick=1500, thorough=20000),
 ]
 ENUMS = [Enum("placements", enum_chunks, enum_cases, check_missing,
               describe="all 2^n placements of missing values for n<=9 (quick: <=5) x value sequences x parameter families for "
